@@ -20,6 +20,11 @@ claim("C02",
       "Silencer.Mutes and the marker ids are compared, for all instants, with a direct evaluation of all stored silences.",
       "Bounds: k=2 slots (quick) / 3 (thorough), <=2 silences, matcher/alert pool (equality, regex+negation, OR-ed sets, UTF-8 name), whole-second instants. "
       "Single-threaded (no concurrent query/update). " + TRUSTED, "4 C02")
+claim("C03",
+      "Bounded symbolic model checking of the real inhibitor over histories: sources fire, are refreshed, resolve, are garbage collected and fire again in arbitrary order "
+      "with symbolic end times; after every step Inhibitor.Mutes and the reported inhibiting alert are compared with the existential rule evaluated on the currently firing sources.",
+      "Bounds: k=3 steps (quick) / 4 (thorough), 4 sources (two sharing equal labels, one with a missing label, one two-sided), 4 targets, rule pool of 3 rules. "
+      "The subscription goroutine is outside (processAlert is driven directly). " + TRUSTED, "4 C03")
 claim("C04",
       "The dedup decision function is compared with the property's rule for every previous log entry, every firing/resolved set over a 3-alert universe, every "
       "repeat interval and instant; the repeat window is checked on the real DedupStage+SetNotifiesStage+nflog with GC at arbitrary instants and the tick time taken from the context.",
@@ -36,10 +41,21 @@ claim("C10",
       "Bounded symbolic model checking of the real nflog code: the merge step from an arbitrary pre-state (inductive), Log/Query/GC laws and "
       "delivery-order convergence are each decided by SMT for all instants/flags within the stated bounds; an unsat answer covers every input on that path.",
       "Bounds: <=3 entries, 2 keys, <=4 operations, instants 1970..2200. Codec opaque. " + TRUSTED, "4 C10")
+claim("C14",
+      "The dispatcher's real ingestion workers (run) consume 2-3 back-to-back versions of one alert; the engine explores every assignment of updates to workers and every "
+      "interleaving at channel/sync.Map/store-lock granularity within a preemption bound and asserts that every group ends with the version submitted last.",
+      "Bounds: 2 updates x 2 workers, preemption bound 1 (quick); 3 updates, 2-3 workers, preemption bound 2 (thorough). Counterexample schedules are confirmed natively by a "
+      "linearised twin (routeAlert calls executed sequentially in the engine's commit order). Preemption between non-synchronising instructions is outside. " + TRUSTED, "4 C14")
 claim("C18",
       "Histories of submissions, heartbeats, expiry and GC under a per-alert-name limit 1..3 on the real store+limit.Bucket code with symbolic end times (limit invariant, "
       "re-sends accepted, refusals reported, GC only removes resolved); silence count/size limits through the real Set (create, in-place edit, replacing edit) incl. 'rejected leaves state untouched'.",
       "Bounds: limit<=3, <=2N+3 operations, 3 silences. GET concurrency limiter (HTTP) is outside. " + TRUSTED, "4 C18")
+
+claim("C19",
+      "Receive path of the real cluster delegate on full-state messages with up to 3 parts (registered/unknown keys, well-formed/malformed payloads, any order), single updates, "
+      "duplicates and undecodable bytes; LocalState completeness; send-side routing of Channel.Broadcast (small vs oversized, every peer, failing peer) with the real sender goroutines.",
+      "Only 'given that memberlist hands the bytes to the delegate / asks it for state, nothing is lost or blocked on our side' is claimed: memberlist itself (UDP gossip, TCP push/pull, "
+      "liveness) cannot be encoded. Encoded sizes are a stand-in (payload length), so only sizes far from the threshold are used. " + TRUSTED, "4 C19")
 
 ALL = ["C%02d" % i for i in range(1, 21)]
 for p in ALL:
